@@ -16,6 +16,7 @@ CHECKS = {
     "C01": ("c01", "model_checking"),
     "C02": ("c02", "model_checking"),
     "C07": ("c07", "model_checking"),
+    "C08": ("c08", "model_checking"),
     "C10": ("c10", "model_checking"),
     "C15": ("c15", "model_checking"),
     "C20": ("c20", "model_checking"),
